@@ -523,3 +523,51 @@ Proof.
     + unfold is_dot. cbn [app bytes_eqb]. rewrite Ha46. reflexivity.
     + unfold is_dotdot. cbn [app bytes_eqb]. rewrite Ha46. reflexivity.
 Qed.
+
+(* ---------------------------------------------------------------------------------------- *)
+(* Two different plain names never share a file: neither where they are put nor where they are looked for. *)
+Lemma join_split f : forall cur, join_slash (split_slash cur f) = rev cur ++ f.
+Proof.
+  induction f as [|c r IH]; intros cur; cbn [split_slash].
+  - cbn [join_slash]. rewrite app_nil_r. reflexivity.
+  - destruct (c =? 47) eqn:E.
+    + apply N.eqb_eq in E. subst c.
+      destruct (split_slash [] r) as [|x l] eqn:Es; [exfalso; exact (split_slash_nonnil r [] Es)|].
+      change (join_slash (rev cur :: x :: l)) with (rev cur ++ 47 :: join_slash (x :: l)).
+      rewrite <- Es, IH. reflexivity.
+    + rewrite IH. cbn [rev]. rewrite <- app_assoc. reflexivity.
+Qed.
+
+Lemma split_slash_inj f1 f2 : split_slash [] f1 = split_slash [] f2 -> f1 = f2.
+Proof.
+  intros H. pose proof (join_split f1 []) as H1. pose proof (join_split f2 []) as H2.
+  rewrite H in H1. rewrite H1 in H2. exact H2.
+Qed.
+
+Theorem plain_names_apart base f1 f2 :
+  base <> [] -> nonempty_comps base = true -> url_plain f1 = true -> url_plain f2 = true ->
+  (put_comps base f1 = put_comps base f2 \/ url_join base f1 = url_join base f2) -> f1 = f2.
+Proof.
+  intros Hne Hb H1 H2 H.
+  assert (Hput : put_comps base f1 = put_comps base f2).
+  { destruct H as [H|H]; [exact H|].
+    rewrite (url_join_plain base f1 Hne Hb H1), (url_join_plain base f2 Hne Hb H2) in H.
+    injection H as H. exact H. }
+  assert (Hrel : forall f, url_plain f = true -> put_comps base f = base ++ split_slash [] f).
+  { intros f Hf. unfold url_plain in Hf. apply andb_true_iff in Hf as [_ Hs].
+    destruct (plain_first _ Hs) as (c & r & -> & _ & H47).
+    unfold put_comps. rewrite H47. rewrite (std_components_plain _ Hs). reflexivity. }
+  rewrite (Hrel f1 H1), (Hrel f2 H2) in Hput. apply app_inv_head in Hput.
+  apply split_slash_inj. exact Hput.
+Qed.
+
+(* so the files a local client opens for two different role names are different files *)
+Theorem role_files_apart base cs v1 v2 n1 n2 :
+  base <> [] -> nonempty_comps base = true ->
+  Forall (fun c => c < 256) n1 -> Forall (fun c => c < 256) n2 -> n1 <> n2 ->
+  url_join base (role_filename cs v1 n1) <> url_join base (role_filename cs v2 n2).
+Proof.
+  intros Hne Hb H1 H2 Hn Heq. apply (role_filename_distinct cs v1 v2 n1 n2 H1 H2 Hn).
+  apply (plain_names_apart base _ _ Hne Hb (role_filename_url_plain cs v1 n1 H1) (role_filename_url_plain cs v2 n2 H2)).
+  right. exact Heq.
+Qed.
